@@ -72,6 +72,8 @@ inductive Ev where
   | cbNaws (w h : Nat)
   | tx (bytes : List Byte)              -- bytes written to the client during the step
   | cl (bytes : List Byte)              -- console: blob handed to add_console_line
+  | errmsg (k : Nat)                    -- the error handler's message for the error raised in callback k
+  | cberr                               -- get_user_data was left through an LPC error (longjmp to the backend)
   | closed
   | crash (why : String)
   deriving Repr, BEq, DecidableEq
@@ -294,6 +296,40 @@ def copyChars (d : Dec) : List Byte → Except String CC
       | .error e => .error e
       | .ok r2 => .ok { d := r2.d, out := r1.out ++ r2.out, tx := r1.tx ++ r2.tx, cbs := r1.cbs ++ r2.cbs }
 
+/-! ### callbacks into the user object are an oracle
+The k-th callback of a connection (process_input on the ascii/binary port; terminal_type, window_size,
+telnet_suboption from a telnet sub-negotiation) returns normally, raises an LPC error, or destructs / disconnects
+the user object. -/
+inductive Outcome where
+  | ok | err | dest
+  deriving Repr, BEq, DecidableEq
+
+abbrev Oracle := Nat → Outcome
+
+/-- copy_chars with the callbacks answered by the oracle; `n` is the ordinal of the next callback.
+    The telnet callbacks are made through safe_apply(): an error is reported (`errmsg`) and copy_chars goes on.
+    If the callback destructs the user, copy_chars stops at once (`ip` is gone): result flag `true`. -/
+def copyCharsO (o : Oracle) (d : Dec) (n : Nat) : List Byte → Except String (CC × Nat × Bool)
+  | [] => .ok ({ d := d }, n, false)
+  | b :: rest =>
+    match ccByte d b with
+    | .error e => .error e
+    | .ok r1 =>
+      if r1.cbs.isEmpty then
+        match copyCharsO o r1.d n rest with
+        | .error e => .error e
+        | .ok (r2, n2, dead) =>
+          .ok ({ d := r2.d, out := r1.out ++ r2.out, tx := r1.tx ++ r2.tx, cbs := r2.cbs }, n2, dead)
+      else
+        match o n with
+        | .dest => .ok ({ d := r1.d, out := r1.out, tx := r1.tx, cbs := r1.cbs }, n + 1, true)
+        | oc =>
+          match copyCharsO o r1.d (n + 1) rest with
+          | .error e => .error e
+          | .ok (r2, n2, dead) =>
+            .ok ({ d := r2.d, out := r1.out ++ r2.out, tx := r1.tx ++ r2.tx,
+                   cbs := r1.cbs ++ (if oc = .err then [.errmsg n] else []) ++ r2.cbs }, n2, dead)
+
 /-! ### the connection -/
 inductive Port where
   | telnet | ascii | binary | console
@@ -307,6 +343,7 @@ structure S where
   dec : Dec := Dec.init
   sock : List Byte := []      -- bytes sent by the client and not yet read
   closed : Bool := false
+  cbCount : Nat := 0          -- callbacks into the user object made so far (ordinal of the next one)
   deriving Repr
 
 def S.init (p : Port) : S := { port := p, text := List.replicate textArraySize 0 }
@@ -431,28 +468,54 @@ def findLF : List Byte → Option Nat
   | [] => none
   | b :: r => if b = bLF then some 0 else (findLF r).map (· + 1)
 
-/-- the PORT_ASCII line loop: `while ((nl = memchr (p, '\n', text_end - text_start)))` -/
-def asciiLoop : Nat → S → List Ev → Except String (S × List Ev)
-  | 0, s, evs => .ok (s, evs)
+inductive LoopEnd where
+  | done        -- no further LF
+  | aborted     -- process_input raised an error: get_user_data is left with what has been committed so far
+  | dead        -- process_input destructed the user
+  deriving Repr, BEq, DecidableEq
+
+/-- the PORT_ASCII line loop: `while ((nl = memchr (p, '\n', text_end - text_start)))`.
+    Statement order: `text_start` is advanced past the line and the LF overwritten by NUL *before* process_input
+    runs; the reset / `p = nl + 1` come after it. -/
+def asciiLoop (o : Oracle) : Nat → S → List Ev → Except String (S × List Ev × LoopEnd)
+  | 0, s, evs => .ok (s, evs, .done)
   | fuel + 1, s, evs =>
     if s.tstart > s.tend ∨ s.tend > s.text.length then .error "PORT_ASCII: memchr outside text[]" else
     let pend := slice s.text s.tstart s.tend
     match findLF pend with
-    | none => .ok (s, evs)
+    | none => .ok (s, evs, .done)
     | some k =>
       let nl := s.tstart + k
-      match writeAt s.text nl [0] with                          -- *nl = 0
+      match writeAt s.text nl [0] with                          -- ip->text_start = nl + 1; *nl = 0
       | .error e => .error e
       | .ok t =>
-        let evs := evs ++ [.input (pend.take k)]
-        let s := { s with text := t, tstart := nl + 1 }
-        if s.tstart = s.tend then .ok ({ s with tstart := 0, tend := 0 }, evs)
-        else asciiLoop fuel s evs
+        let evs := evs ++ [.input (pend.take k)]                -- apply (process_input)
+        let n := s.cbCount
+        let s := { s with text := t, tstart := nl + 1, cbCount := n + 1 }
+        match o n with
+        | .err => .ok (s, evs ++ [.errmsg n, .cberr], .aborted)
+        | .dest => .ok ({ s with closed := true }, evs, .dead)
+        | .ok =>
+          if s.tstart = s.tend then .ok ({ s with tstart := 0, tend := 0 }, evs, .done)
+          else asciiLoop o fuel s evs
 
 def setCmdFlag (s : S) : Except String S :=
   match cmdInBuf s with
   | .error e => .error e
   | .ok c => .ok (if c then { s with dec := { s.dec with fl := { s.dec.fl with cmdInBuf := true } } } else s)
+
+/-- PORT_ASCII / PORT_BINARY: lines already handed over but still in front of the buffer (an error in
+    process_input) are released first; no protocol overhead; a full buffer without LF is discarded -/
+def computeSpaceOther (s : S) : Except String (S × Nat) :=
+  if s.tstart > s.tend then .error "get_user_data: text_end - text_start wraps" else
+  match (if s.tstart > 0 then writeAt s.text 0 (slice s.text s.tstart s.tend) else .ok s.text) with
+  | .error e => .error e
+  | .ok t =>
+    let s := { s with text := t, tend := s.tend - s.tstart, tstart := 0 }
+    if s.tend + asciiReserve > MAXT then .error "get_user_data: MAX_TEXT - text_end - 1 wraps" else
+    let space := MAXT - s.tend - asciiReserve
+    if space = 0 then .ok ({ s with tstart := 0, tend := 0 }, MAXT - 1)        -- over-long line discarded
+    else .ok (s, space)
 
 /-- the length get_user_data passes to recv(), after compaction / discard -/
 def computeSpace (s : S) : Except String (S × Nat) :=
@@ -475,14 +538,10 @@ def computeSpace (s : S) : Except String (S × Nat) :=
           .ok ({ s with tstart := 0, tend := 0 }, MAXT / discardSpaceDiv)       -- discard
         else .ok (s, space)
     else .ok (s, space)
-  | _ =>
-    if s.tend + asciiReserve > MAXT then .error "get_user_data: MAX_TEXT - text_end - 1 wraps" else
-    let space := MAXT - s.tend - asciiReserve
-    if space = 0 then .ok ({ s with tstart := 0, tend := 0 }, MAXT - 1)        -- over-long line discarded
-    else .ok (s, space)
+  | _ => computeSpaceOther s
 
 /-- get_user_data (readiness path, `evt == NULL`) -/
-def getUserData (s : S) : Except String (S × List Ev) :=
+def getUserData (o : Oracle) (s : S) : Except String (S × List Ev) :=
   if s.port == .console then .ok (s, []) else
   match computeSpace s with
   | .error e => .error e
@@ -498,9 +557,11 @@ def getUserData (s : S) : Except String (S × List Ev) :=
     if chunk.length ≥ MAXT then .error "get_user_data: buf[num_bytes] behind buf[MAX_TEXT]" else
     match s.port with
     | .telnet =>
-      match copyChars s.dec chunk with
+      match copyCharsO o s.dec s.cbCount chunk with
       | .error e => .error e
-      | .ok r =>
+      | .ok (r, n', dead) =>
+        let txe : List Ev := if r.tx.isEmpty then [] else [.tx r.tx]
+        if dead then .ok ({ s with closed := true, cbCount := n' }, pre ++ r.cbs ++ txe) else
         match writeAt s.text s.tend r.out with
         | .error e => .error e
         | .ok t =>
@@ -508,23 +569,31 @@ def getUserData (s : S) : Except String (S × List Ev) :=
           match writeAt t e' [0] with                              -- ip->text[ip->text_end] = '\0'
           | .error e => .error e
           | .ok t2 =>
-            match setCmdFlag { s with text := t2, tend := e', dec := r.d } with
+            match setCmdFlag { s with text := t2, tend := e', dec := r.d, cbCount := n' } with
             | .error e => .error e
-            | .ok s2 => .ok (s2, pre ++ r.cbs ++ (if r.tx.isEmpty then [] else [.tx r.tx]))
+            | .ok s2 => .ok (s2, pre ++ r.cbs ++ txe)
     | .ascii =>
       match writeAt s.text s.tend chunk with                       -- memcpy (ip->text + ip->text_end, buf, n)
       | .error e => .error e
       | .ok t =>
-        match asciiLoop (chunk.length + 1) { s with text := t, tend := s.tend + chunk.length } [] with
+        match asciiLoop o (s.tend - s.tstart + chunk.length + 1) { s with text := t, tend := s.tend + chunk.length } [] with
         | .error e => .error e
-        | .ok (s2, evs) =>
+        | .ok (s2, evs, .aborted) => .ok (s2, pre ++ evs)          -- longjmp: nothing after the apply is executed
+        | .ok (s2, evs, .dead) => .ok (s2, pre ++ evs)
+        | .ok (s2, evs, .done) =>
           if s2.tstart > 0 then
             if s2.tstart > s2.tend then .error "PORT_ASCII: text_end - text_start wraps" else
             match writeAt s2.text 0 (slice s2.text s2.tstart s2.tend) with
             | .error e => .error e
             | .ok t3 => .ok ({ s2 with text := t3, tend := s2.tend - s2.tstart, tstart := 0 }, pre ++ evs)
           else .ok (s2, pre ++ evs)
-    | .binary => .ok (s, pre ++ [.input chunk])
+    | .binary =>
+      let n := s.cbCount
+      let s := { s with cbCount := n + 1 }
+      match o n with
+      | .ok => .ok (s, pre ++ [.input chunk])
+      | .err => .ok (s, pre ++ [.input chunk, .errmsg n, .cberr])
+      | .dest => .ok ({ s with closed := true }, pre ++ [.input chunk])
     | .console => .ok (s, pre)
 
 /-- add_console_line, first part: if the blob does not fit and no complete command is pending, the unfinished
@@ -583,9 +652,9 @@ def Run.add (r : Run) (s : S) (evs : List Ev) : Run :=
 
 def Run.crash (r : Run) (why : String) : Run := { r with evs := r.evs ++ [.crash why], dead := true }
 
-def doRead (r : Run) : Run :=
+def doRead (o : Oracle) (r : Run) : Run :=
   if r.dead || r.s.closed then r else
-  match getUserData r.s with
+  match getUserData o r.s with
   | .error e => r.crash e
   | .ok (s, evs) => r.add s evs
 
@@ -603,32 +672,32 @@ def drainLoop : Nat → Run → Run
     let (r, got) := doExtract r
     if got then drainLoop fuel r else r
 
-def finishLoop : Nat → Run → Run
+def finishLoop (o : Oracle) : Nat → Run → Run
   | 0, r => r
   | fuel + 1, r =>
     if r.s.sock.isEmpty || r.dead || r.s.closed then r
-    else finishLoop fuel (drainLoop 5000 (doRead r))
+    else finishLoop o fuel (drainLoop 5000 (doRead o r))
 
-def stepOp (r : Run) (op : Op) : Run :=
+def stepOp (o : Oracle) (r : Run) (op : Op) : Run :=
   if r.dead then r else
   match op with
   | .send b => { r with s := { r.s with sock := r.s.sock ++ b } }
   | .iflagSingle =>
     if r.s.closed then r
     else r.add { r.s with dec := { r.s.dec with fl := { r.s.dec.fl with single := true } } } []
-  | .read => doRead r
-  | .chunk b => doRead { r with s := { r.s with sock := r.s.sock ++ b } }
+  | .read => doRead o r
+  | .chunk b => doRead o { r with s := { r.s with sock := r.s.sock ++ b } }
   | .extract => (doExtract r).1
   | .drain => drainLoop 5000 r
-  | .finish => finishLoop 20000 r
+  | .finish => finishLoop o 20000 r
   | .line b =>
     if r.s.closed then r else
     match addConsoleLine r.s b with
     | .error e => r.crash e
     | .ok s => r.add s [.cl b]
 
-def run (p : Port) (ops : List Op) : Run :=
+def run (p : Port) (o : Oracle) (ops : List Op) : Run :=
   let s0 := S.init p
-  ops.foldl stepOp { s := s0, evs := afterStep s0 }
+  ops.foldl (stepOp o) { s := s0, evs := afterStep s0 }
 
 end NV.C13
